@@ -102,7 +102,11 @@ def check_history(case):
     banned = ("ports", "signals", "instances", "instarrays", "instbundles", "bundles", "literals", "props",
               "namespace", "add", "get") if is_mod else ("signals", "bundles", "namespace")
     spec = {}
+    ever = []          # every object that was a member at some point
     for step, (op, name, kind) in enumerate(hist):
+        for v_ in spec.values():
+            if not any(v_ is e_ for e_ in ever):
+                ever.append(v_)
         where = f"step {step} of {case!r}"
         try:
             if op == "setattr":
@@ -201,6 +205,12 @@ def check_history(case):
         for n in banned + ("name", "bundle_ports", "roles", "_initialized", "_elaborated", "__class__", "__dict__"):
             if n not in spec and m.get(n) is not None:
                 return ("post.get", f"get({n!r}) returns {type(m.get(n)).__name__} although nothing was added under that name at {where}")
+        # an object that lost its (last) name to another is no longer the module's: it does not report it as parent
+        for e_ in ever:
+            if not any(e_ is v_ for v_ in spec.values()):
+                parent = e_._parent_module if is_mod else e_._parent_bundle
+                if parent is m:
+                    return ("post.parent", f"an object evicted from its name still reports the {'module' if is_mod else 'bundle'} as its parent at {where}")
         for n in NAMES + ADD_ONLY_NAMES:
             if n not in spec and m.get(n) is not None:
                 return ("post.get", f"get({n}) returns an object for an absent name at {where}")
